@@ -210,6 +210,12 @@ def fault_cfgs(tier):
     for w in (1, 2, 4):
         for reqs in ([(rq(3), 0)], [(0, rs(3))], [(rq(3), rs(3))]):
             single.append(Cfg(c=dict(slow, window=w), s=dict(slow, window=w), reqs=reqs, reorder=1, dupcap=1, label="default-timers"))
+    # two transfers one after the other between the same two devices; one frame of the first arrives once more at any
+    # point of the second (the application's payloads differ, so a segment that joins the wrong transfer shows)
+    for w in (1, 2, 4):
+        for reqs in ([(0, rs(3)), (0, rs(3))], [(rq(3), 0), (rq(3), 0)], [(rq(2), rs(2)), (rq(2), rs(2))]):
+            single.append(Cfg(c={"window": w, "retries": 3}, s={"window": w, "retries": 3}, reqs=reqs, via="iocb", straggler=True,
+                              reorder=0, dupcap=0, label="straggler"))
     single.append(Cfg(c={"retries": 3}, s={"retries": 3}, reqs=[(0, 0)]))
     single.append(Cfg(c={"retries": 1}, s={"retries": 1}, reqs=[(rq(3), rs(3))]))
     # two segment sizes above 50 for single faults
